@@ -93,22 +93,48 @@ func nativeMain(kind string, args []string) int {
 
 // ---------------------------------------------------------------------------------------------- C17
 
+// numErr: an error carrying an int, for the instantiations of OnceN whose last result type is `error`
+type numErr int
+
+func (e numErr) Error() string { return "numErr" }
+
+func toErr(x int) error {
+	if x == 0 {
+		return nil
+	}
+	return numErr(x)
+}
+
+func fromErr(e error) int {
+	if e == nil {
+		return 0
+	}
+	return int(e.(numErr))
+}
+
 func onceScenario(r *rand.Rand) (string, string, []string) {
 	arity := 1 + r.Intn(3)
 	early := 1 + r.Intn(8) // callers racing before completion
 	late := r.Intn(4)      // callers arriving after completion
 	waitFor := r.Intn(early + 1)
+	errTyped := r.Intn(2) == 0 // instantiate the LAST result type with `error` (non-nil for most callers, nil for some)
 	rec := &recorder{}
 	release := make(chan struct{})
 	var called int32
 	var o1 sync2.Once1[int]
 	var o2 sync2.Once2[int, int]
 	var o3 sync2.Once3[int, int, int]
+	var e1 sync2.Once1[error]
+	var e2 sync2.Once2[int, error]
+	var e3 sync2.Once3[int, int, error]
 	do := func(t int) {
 		res := func() []int { // the values f_t returns: distinct per goroutine
 			out := make([]int, arity)
 			for i := range out {
 				out[i] = 100*t + i + 1
+			}
+			if errTyped && t%3 == 2 {
+				out[arity-1] = 0 // a nil error
 			}
 			return out
 		}
@@ -122,16 +148,25 @@ func onceScenario(r *rand.Rand) (string, string, []string) {
 		rec.log("call %d", t)
 		atomic.AddInt32(&called, 1)
 		var got []int
-		switch arity {
-		case 1:
+		switch {
+		case arity == 1 && !errTyped:
 			a := o1.Do(func() int { v := body(); return v[0] })
 			got = []int{a}
-		case 2:
+		case arity == 2 && !errTyped:
 			a, b := o2.Do(func() (int, int) { v := body(); return v[0], v[1] })
 			got = []int{a, b}
-		default:
+		case arity == 3 && !errTyped:
 			a, b, c := o3.Do(func() (int, int, int) { v := body(); return v[0], v[1], v[2] })
 			got = []int{a, b, c}
+		case arity == 1:
+			a := e1.Do(func() error { v := body(); return toErr(v[0]) })
+			got = []int{fromErr(a)}
+		case arity == 2:
+			a, b := e2.Do(func() (int, error) { v := body(); return v[0], toErr(v[1]) })
+			got = []int{a, fromErr(b)}
+		default:
+			a, b, c := e3.Do(func() (int, int, error) { v := body(); return v[0], v[1], toErr(v[2]) })
+			got = []int{a, b, fromErr(c)}
 		}
 		rec.log("ret %d %s", t, fmtInts(got))
 	}
@@ -156,7 +191,7 @@ func onceScenario(r *rand.Rand) (string, string, []string) {
 	for t := early; t < early+late; t++ {
 		do(t)
 	}
-	return fmt.Sprintf("once %d", arity), fmt.Sprintf("once arity=%d early=%d late=%d waitFor=%d", arity, early, late, waitFor), rec.lines()
+	return fmt.Sprintf("once %d", arity), fmt.Sprintf("once arity=%d early=%d late=%d waitFor=%d errTyped=%v", arity, early, late, waitFor, errTyped), rec.lines()
 }
 
 // ---------------------------------------------------------------------------------------------- C18 AtomicValue
